@@ -191,6 +191,16 @@ class ClientGenerator:
                 tmp_out_dir_for_diff.mkdir(parents=True, exist_ok=True)
                 tmp_core_dir_for_diff.mkdir(parents=True, exist_ok=True)  # Ensure core temp dir always exists
 
+                # Give the temporary tree the same ancestor package markers a direct run creates, so that
+                # post-processing (import sorting looks at the package structure) formats both trees alike
+                for tmp_pkg_dir in (tmp_out_dir_for_diff, tmp_core_dir_for_diff):
+                    current = tmp_pkg_dir.parent
+                    while current != tmp_project_root_for_diff and tmp_project_root_for_diff in current.parents:
+                        tmp_init_path = current / "__init__.py"
+                        if not tmp_init_path.exists():
+                            tmp_init_path.write_text("")
+                        current = current.parent
+
                 # --- Generate files into the temporary structure ---
                 temp_generated_files = []  # Track files generated in temp dir
 
